@@ -339,6 +339,10 @@ def c12_corr(res, exe, driver, tier, seed, tmp):
             if meta["full"]:
                 meta["whole"]["E"] = obs[2][1]
             got, E = obs[2][1], meta["whole"]["E"]
+            if E is None:
+                # the complete file itself did not load (its own case reports why): nothing to compare a cut with
+                E = got
+                why = "the complete file (written by %s) did not load" % meta["written_by"][:200]
             j = 0
             while j < len(got) and j < len(E) and got[j] == E[j]:
                 j += 1
